@@ -419,3 +419,87 @@ M('c13_seq_probe_before_indirect', ['C13'], ['C13-R5'], 'ProbeRandomMember sorts
 M('c13_incomplete_never_reported', ['C13'], ['C13-R6'], 'validate() always true: skipped indirect stage goes unnoticed',
   (PROBE, '        self.direct.is_none()\n            // Otherwise it\'s only valid if the indirect\n            // probing stage has been reached\n            || self.reached_indirect_probe_stage',
    '        self.direct.is_none() || self.reached_indirect_probe_stage || self.indirect.is_empty()'))
+
+# ---------------------------------------------------------------- C15
+M('c15_no_decrement', ['C15'], ['C15-R2'], 'a transmitted update is never charged (gossiped forever)',
+  (BROADCAST, '                buffer.put_slice(&node.data);\n                node.remaining_tx -= 1;\n            }\n\n            if node.remaining_tx > 0 {\n                self.flop.push(node);\n            }\n        }\n\n        self.flip.append(&mut self.flop);\n\n        num_taken\n    }\n\n    pub(crate) fn fill_with_len_prefix(',
+   '                buffer.put_slice(&node.data);\n            }\n\n            if node.remaining_tx > 0 {\n                self.flop.push(node);\n            }\n        }\n\n        self.flip.append(&mut self.flop);\n\n        num_taken\n    }\n\n    pub(crate) fn fill_with_len_prefix('))
+M('c15_decrement_even_if_not_fit', ['C15'], ['C15-R2'], 'an update that did not fit is charged a transmission anyway',
+  (BROADCAST, '                buffer.put_slice(&node.data);\n                node.remaining_tx -= 1;\n            }\n\n            if node.remaining_tx > 0 {\n                self.flop.push(node);\n            }\n        }\n\n        self.flip.append(&mut self.flop);\n\n        num_taken\n    }\n\n    pub(crate) fn fill_with_len_prefix(',
+   '                buffer.put_slice(&node.data);\n            }\n            node.remaining_tx -= 1;\n\n            if node.remaining_tx > 0 {\n                self.flop.push(node);\n            }\n        }\n\n        self.flip.append(&mut self.flop);\n\n        num_taken\n    }\n\n    pub(crate) fn fill_with_len_prefix('))
+M('c15_nonfitting_dropped', ['C15'], ['C15-R2'], 'an update that does not fit this datagram is dropped from the backlog',
+  (BROADCAST, '''                buffer.put_slice(&node.data);
+                node.remaining_tx -= 1;
+            }
+
+            if node.remaining_tx > 0 {
+                self.flop.push(node);
+            }
+        }
+
+        self.flip.append(&mut self.flop);
+
+        num_taken
+    }
+
+    pub(crate) fn fill_with_len_prefix(''', '''                buffer.put_slice(&node.data);
+                node.remaining_tx -= 1;
+
+                if node.remaining_tx > 0 {
+                    self.flop.push(node);
+                }
+            }
+        }
+
+        self.flip.append(&mut self.flop);
+
+        num_taken
+    }
+
+    pub(crate) fn fill_with_len_prefix('''))
+M('c15_stop_at_first_nonfitting', ['C15'], ['C15-R2'], 'the scan stops at the first update that does not fit (smaller ones are omitted)',
+  (BROADCAST, '''                buffer.put_slice(&node.data);
+                node.remaining_tx -= 1;
+            }
+
+            if node.remaining_tx > 0 {
+                self.flop.push(node);
+            }
+        }
+
+        self.flip.append(&mut self.flop);
+
+        num_taken
+    }
+
+    pub(crate) fn fill_with_len_prefix(''', '''                buffer.put_slice(&node.data);
+                node.remaining_tx -= 1;
+            } else {
+                self.flop.push(node);
+                break;
+            }
+
+            if node.remaining_tx > 0 {
+                self.flop.push(node);
+            }
+        }
+
+        self.flip.append(&mut self.flop);
+
+        num_taken
+    }
+
+    pub(crate) fn fill_with_len_prefix('''))
+M('c15_retain_polarity', ['C15', 'C16'], ['C15-R1'], 'add_or_replace keeps only the entries the new one invalidates',
+  (BROADCAST, 'self.flip.retain(|node| !item.invalidates(&node.item));', 'self.flip.retain(|node| item.invalidates(&node.item));'))
+M('c15_no_retain', ['C15', 'C16'], ['C15-R1'], 'stale entries for the same key are kept next to the new one',
+  (BROADCAST, '        self.flip.retain(|node| !item.invalidates(&node.item));\n', ''))
+M('c15_cmp_reversed', ['C15'], ['C15-R3'], 'entries with fewer transmissions left are served first',
+  (BROADCAST, '        self.remaining_tx\n            .cmp(&other.remaining_tx)', '        other.remaining_tx\n            .cmp(&self.remaining_tx)'))
+M('c15_do_broadcast_ignored', ['C15'], ['C15-R5'], 'applying with broadcasting disabled still queues the update',
+  (LIB, '            if do_broadcast {\n                let addr = Addr(id.addr());', '            if do_broadcast || summary.changed_active_set {\n                let addr = Addr(id.addr());'))
+M('c15_max_tx_constant', ['C15'], ['C15-R1'], 'updates are queued with a fixed number of transmissions instead of max_transmissions',
+  (LIB, '                self.updates\n                    .add_or_replace(addr, data, self.config.max_transmissions.get().into());\n            }\n\n            // Down is a terminal state',
+   '                self.updates\n                    .add_or_replace(addr, data, self.config.num_indirect_probes.get());\n            }\n\n            // Down is a terminal state'))
+M('c15_addr_key_by_generation', ['C15'], ['C15-R1'], 'backlog key compares more than the address... inverted: never invalidates',
+  (LIB, '        self.0 == other.0\n    }\n}', '        self.0 != other.0\n    }\n}'))
